@@ -257,40 +257,42 @@ func c22Exec(b *cryptobyte.Builder, ops []*rc.Op) {
 
 func c22Read(s *cryptobyte.String, items []*rc.Item, path string) error {
 	for i, it := range items {
+		// destinations are pre-loaded with stale values: a read must not depend on them
+		stale := []uint64{0, 1, ^uint64(0), 0xa5a5a5a5a5a5a5a5}[(i+len(path))%4]
 		at := fmt.Sprintf("%s/%d:%s", path, i, it.Kind)
 		switch it.Kind {
 		case rc.OpU8:
-			var v uint8
+			v := uint8(stale)
 			if !s.ReadUint8(&v) || uint64(v) != it.Val {
 				return fmt.Errorf("%s ReadUint8 gave %#x, wrote %#x", at, v, it.Val)
 			}
 		case rc.OpU16:
-			var v uint16
+			v := uint16(stale)
 			if !s.ReadUint16(&v) || uint64(v) != it.Val {
 				return fmt.Errorf("%s ReadUint16 gave %#x, wrote %#x", at, v, it.Val)
 			}
 		case rc.OpU24:
-			var v uint32
+			v := uint32(stale)
 			if !s.ReadUint24(&v) || uint64(v) != it.Val {
 				return fmt.Errorf("%s ReadUint24 gave %#x, wrote %#x", at, v, it.Val)
 			}
 		case rc.OpU32:
-			var v uint32
+			v := uint32(stale)
 			if !s.ReadUint32(&v) || uint64(v) != it.Val {
 				return fmt.Errorf("%s ReadUint32 gave %#x, wrote %#x", at, v, it.Val)
 			}
 		case rc.OpU48:
-			var v uint64
+			v := uint64(stale)
 			if !s.ReadUint48(&v) || v != it.Val {
 				return fmt.Errorf("%s ReadUint48 gave %#x, wrote %#x", at, v, it.Val)
 			}
 		case rc.OpU64:
-			var v uint64
+			v := uint64(stale)
 			if !s.ReadUint64(&v) || v != it.Val {
 				return fmt.Errorf("%s ReadUint64 gave %#x, wrote %#x", at, v, it.Val)
 			}
 		case rc.OpBytes, rc.ItRaw:
-			var v []byte
+			v := []byte("stale")
 			if it.Read&1 == 0 {
 				if !s.ReadBytes(&v, len(it.Enc)) {
 					return fmt.Errorf("%s ReadBytes(%d) failed", at, len(it.Enc))
@@ -305,7 +307,7 @@ func c22Read(s *cryptobyte.String, items []*rc.Item, path string) error {
 				return fmt.Errorf("%s bytes read back differ (%d bytes)", at, len(v))
 			}
 		case rc.OpLP8, rc.OpLP16, rc.OpLP24, rc.OpLP32:
-			var child cryptobyte.String
+			child := cryptobyte.String("stale child")
 			ok := false
 			switch it.Kind {
 			case rc.OpLP8:
@@ -330,7 +332,7 @@ func c22Read(s *cryptobyte.String, items []*rc.Item, path string) error {
 				return fmt.Errorf("%s %d bytes left over in the child", at, len(child))
 			}
 		case rc.OpASN1:
-			var child cryptobyte.String
+			child := cryptobyte.String("stale child")
 			tag := cbasn1.Tag(it.Tag)
 			switch it.Read {
 			case 0:
@@ -535,6 +537,23 @@ func c22Run(cs *c22Case) (exp *rc.Outcome, excluded string, violation error) {
 		}
 		if len(out) > cs.capa {
 			return exp, "", fmt.Errorf("fixed-size builder wrote %d bytes into a %d-byte buffer", len(out), cs.capa)
+		}
+	}
+	// observing the builder between top-level operations must not change the result
+	if !strings.HasPrefix(cs.kind, "fixed") && len(cs.ops) <= 12 {
+		b2 := cryptobyte.NewBuilder(append(make([]byte, 0, cs.initial+8), prefix...))
+		var out2 []byte
+		var err2 error
+		if p := func() (p any) {
+			defer func() { p = recover() }()
+			for _, op := range cs.ops {
+				c22Exec(b2, []*rc.Op{op})
+				b2.Bytes()
+			}
+			out2, err2 = b2.Bytes()
+			return nil
+		}(); p != nil || err2 != nil || !bytes.Equal(out2, want) {
+			return exp, "", fmt.Errorf("calling Bytes between top-level operations changed the outcome: panic=%v err=%v, %d bytes (want %d)", p, err2, len(out2), len(want))
 		}
 	}
 	s := cryptobyte.String(out)
